@@ -284,6 +284,11 @@ def c_xcase(rec) -> str:
         clist(cN(cd.var(v)) for v in rec["choices"]), c_tc(rec["result"], cd))
 
 
+def c_acase(rec) -> str:
+    cd = Coder()
+    return "(%s, %s)" % (c_tc(rec["before"], cd), c_tc(rec["after"], cd))
+
+
 def c_icase(rec) -> str:
     return "(%d%%nat, %d%%nat, %s, %d%%nat)" % (rec["maxlen"], rec["before"],
                                                clist(f"{p}%nat" for p in rec["proposed"]), rec["after"])
@@ -301,6 +306,9 @@ class Recorder:
 
     def __init__(self):
         self.steps, self.xover, self.inserts = [], [], []
+        self.alias = []        # (op, abstract state of ANOTHER test case before, after): must be equal
+        self.alias_ok = []     # sample of unchanged bystanders (for the Coq side)
+        self._live = {}        # id -> (weakref, fingerprint, abstract state)
         self.unsupported = []
         self.depth = 0
         self.origin = "factory"
@@ -308,6 +316,37 @@ class Recorder:
         self.insert_trace = None
         self.max_steps = 10**9
         self._installed = False
+
+    # -- value semantics: a call on one test case must not change any other live test case -----
+    @staticmethod
+    def fingerprint(t):
+        return (tuple(map(id, t._statements)), t._var_counter,
+                tuple((ty, tuple(vs)) for ty, vs in t._type_registry.items()))
+
+    def track(self, t):
+        import weakref
+
+        self._live[id(t)] = (weakref.ref(t), self.fingerprint(t), abs_tc(t))
+
+    def bystanders(self, op, touched):
+        """After an outermost call that may only change the objects in `touched`: every other live test
+        case must be unchanged (e.g. a clone must not share its registry lists with the original)."""
+        ids = {id(x) for x in touched}
+        for k, (ref, fp, ab) in list(self._live.items()):
+            t = ref()
+            if t is None:
+                del self._live[k]
+                continue
+            if k in ids:
+                continue
+            now = self.fingerprint(t)
+            if now != fp:
+                self.alias.append({"op": op, "before": ab, "after": abs_tc(t)})
+                self.track(t)
+            elif len(self.alias_ok) < 400 and len(ab["stmts"]) > 0 and op in ("OAdd", "OAppendFrom", "OInsert", "OReplace"):
+                self.alias_ok.append({"op": op, "before": ab, "after": abs_tc(t)})
+        for x in touched:
+            self.track(x)
 
     # -- installation -------------------------------------------------------------------------
     def install(self):
@@ -330,10 +369,16 @@ class Recorder:
                 if rec.depth > 0:
                     return orig(self_tc, *a, **k)
                 rec.depth += 1
+                if id(self_tc) not in rec._live:
+                    rec.track(self_tc)
+                for a_ in a:
+                    if isinstance(a_, TC) and id(a_) not in rec._live:
+                        rec.track(a_)
                 pre = abs_tc(self_tc)
                 cap = []
                 rec.capture.append(cap)
                 res = None
+                op = None
                 try:
                     op = mkop(self_tc, cap, *a, **k)
                     res = orig(self_tc, *a, **k)
@@ -342,6 +387,7 @@ class Recorder:
                     rec.capture.pop()
                     rec.depth -= 1
                     target = res if (result_is_state and res is not None) else self_tc
+                    rec.bystanders(op[0] if op else name, [self_tc] + ([res] if (result_is_state and res is not None) else []))
                     if op is None:
                         rec.unsupported.append(name)
                     elif len(rec.steps) < rec.max_steps:
@@ -371,11 +417,14 @@ class Recorder:
             if rec.depth > 0 or not nonneg(position):
                 return orig_dsg(test_case, position)
             rec.depth += 1
+            if id(test_case) not in rec._live:
+                rec.track(test_case)
             pre = abs_tc(test_case)
             try:
                 return orig_dsg(test_case, position)
             finally:
                 rec.depth -= 1
+                rec.bystanders("ODeleteGracefully", [test_case])
                 if len(rec.steps) < rec.max_steps:
                     rec.steps.append({"pre": pre, "op": ("ODeleteGracefully", position), "post": abs_tc(test_case),
                                       "origin": rec.origin})
